@@ -445,8 +445,86 @@ def state_oracle(hist: tuple) -> Tuple[Optional[Dict[str, Any]], int]:
     return None, n
 
 
+# --------------------------------------------------------------------------------------------------
+# "after a service is updated replies reflect only the new state" - also for replies that were being prepared
+# --------------------------------------------------------------------------------------------------
+
+
+def pending_points(tier: str) -> List[Dict[str, Any]]:
+    pts = []
+    for svc in ("S1", "S3", "S5", "S7"):
+        for change in ("port", "text", "addr", "server"):
+            for how in ("same", "new"):
+                if change == "server" and how == "same":
+                    continue  # (the host name is only changed through a new object, see assumptions)
+                for query in ("ptr", "srv+a", "a+ptr"):
+                    for delay in (5, 60):
+                        for protected in (False, True):
+                            pts.append({"svc": svc, "change": change, "how": how, "query": query, "delay": delay,
+                                        "protected": protected})
+    return pts if tier != "quick" else pts[::2] + pts[1::6]
+
+
+def run_pending(p: Dict[str, Any]) -> Tuple[Optional[Dict[str, Any]], str, int]:
+    """A query is answered by multicast after a delay (aggregation, or the one-second protection); the service is updated
+    while the answer waits.  Whatever is multicast after the update must belong to the registry as it is then."""
+    from ..explore import digest as _digest
+    problem = None
+    with World() as w:
+        r = Replay(w)
+        for n_ in ("S1", "S2", "S3", "S5", "S7"):
+            r.apply(("reg", n_))
+        w.advance(3000)
+        old = r.model[p["svc"]]
+        qs = {"ptr": [("Q", old.type, 12, 1)], "srv+a": [("Q", old.name, 33, 1), ("Q", old.server, 1, 1)],
+              "a+ptr": [("Q", old.server, 1, 1), ("Q", old.type, 12, 1)]}[p["query"]]
+        if p["protected"]:
+            # a cooperating responder multicast the records half a second ago: the answer is held for about a second
+            recs = [old.ptr(), old.srv(), old.txt()] + old.addrs()
+            w.net.inject(r.host, wire.response(recs), ("10.9.9.6", 5353))
+            w.advance(500)
+        w.net.inject(r.host, wire.query(qs, id_=0), ("10.9.9.7", 5353))
+        w.advance(p["delay"])
+        t_upd = w.now_ms
+        r.apply(("upd", p["svc"], p["change"], p["how"]))
+        if r.errors:
+            problem = r.errors[0]
+        new = r.model[p["svc"]]
+        w.advance(2500)
+        # everything the registry holds now
+        current = set()
+        for d in r.model.values():
+            for rec in [d.ptr(), d.srv(), d.txt()] + d.addrs():
+                current.add(ident(rec))
+        own_names = {old.name.lower(), old.server.lower(), new.server.lower()}
+        for s_ in w.net.trace:
+            if s_.t_us / 1000 <= t_upd or problem:
+                continue
+            m = wire.decode(s_.data)
+            if not m.is_response:
+                continue
+            for rec in m.records():
+                if rec[0] in ("NSEC", "RAW") or rec[3] == 0:
+                    continue
+                if rec[1].lower() in own_names and ident(rec) not in current:
+                    problem = (f"after the update ({p['change']}, {p['how']} object) of {old.name} a reply still carries {rec[:2]} "
+                               f"rdata {rec[4:]}, which belongs to the description that was replaced "
+                               f"({s_.t_us / 1000 - t_upd:.0f} ms after the update)")
+                    break
+        excs = w.exceptions()
+        if not problem and excs:
+            problem = f"exception in the event loop: {excs[0]}"
+        obs = _digest([(round(s_.t_us / 1000 - t_upd), s_.data) for s_ in w.net.trace if s_.t_us / 1000 > t_upd - 700])
+    if problem:
+        return ({"what": f"C03 pending reply {p}: {problem[:700]}", "replay": {"pending": p}, "signature": {"check": "pending-reply"}},
+                obs, 1)
+    return None, obs, 1
+
+
 def run(tier: str, seed: int) -> Tuple[Stats, str, List[str], Dict[str, Any]]:
     stats = Stats()
+    from ..explore import explore_product
+    explore_product(run_pending, pending_points(tier), stats, f"C03/{tier}/pending")
     depth = 4 if tier == "quick" else 6
     events = events_for(tier)
     log: List[Dict[str, int]] = []
@@ -470,6 +548,13 @@ def run(tier: str, seed: int) -> Tuple[Stats, str, List[str], Dict[str, Any]]:
 
 
 def replay(data: Dict[str, Any]) -> int:
+    if "pending" in data or "point" in data:
+        v, _, _ = run_pending(dict(data.get("pending") or data["point"]))
+        if v:
+            print("VIOLATION reproduced:", v["what"])
+            return 1
+        print("no violation on this tree")
+        return 0
     hist = tuple(tuple(e) for e in data["history"])
     v, n = state_oracle(hist)
     v2, _ = state_oracle(hist)
